@@ -66,3 +66,68 @@ Proof.
   - apply (Hcont (Ok u2)). intros u Hu. apply (Hsend u2 eq_refl).
   - apply (Hcont (Err e2)). intros u Hu. discriminate.
 Qed.
+
+(* ---------- a fault-free cycle publishes and removes every entry it was given ---------- *)
+Definition ff (s : ost) : Prop := o_plan s = [] /\ o_lease s = true /\ o_dead s = false.
+
+Lemma prim_ff {A} k ctx T E (X : disp -> world -> M A) s :
+  ff s -> exists s1, ff s1 /\ o_w s1 = E (o_w s) /\ prim k ctx T E X s = X DoOk (o_w s) s1.
+Proof.
+  intros (Hp & Hl & Hd). destruct s as [w pl cn tr le de]. cbn in Hp, Hl, Hd. subst pl le de.
+  unfold prim, bind, dispatch, next_fault, get_w, emit, put_w. cbn.
+  destruct ctx; cbn; eexists; (split; [|split; [|reflexivity]]); try (repeat split; reflexivity); reflexivity.
+Qed.
+
+Lemma relay_entries_ff (l : list oentry) : forall s, ff s ->
+  exists s', relay_entries l s = (Ok tt, s') /\ ff s' /\
+    w_outbox (o_w s') = filter (fun o => negb (existsb (fun x => N.eqb (o_id x) (o_id o)) l)) (w_outbox (o_w s)) /\
+    length (w_log (o_w s')) = (length (w_log (o_w s)) + length l)%nat.
+Proof.
+  induction l as [|o tl IH]; intros s Hs; cbn [relay_entries].
+  - exists s. split; [reflexivity|]. split; [exact Hs|]. cbn. split; [|lia].
+    induction (w_outbox (o_w s)) as [|a t IHt]; cbn; [reflexivity|]. now rewrite <- IHt.
+  - unfold bind at 1. unfold p_call at 1.
+    destruct (prim_ff KNS true (fun d w => TCall KNS [] (disp_res d) (if disp_effect d then [] else [])) (fun w => w) (fun d _ => disp_ret d tt) s Hs) as (s1 & F1 & W1 & R1).
+    rewrite R1. cbn [disp_ret ret].
+    unfold bind at 1, catch at 1. unfold p_send.
+    destruct (prim_ff KSD true (fun d _ => TSend o (disp_res d)) (fun w => do_send w o) (fun d _ => disp_ret d tt) s1 F1) as (s2 & F2 & W2 & R2).
+    rewrite R2. cbn [disp_ret ret].
+    unfold bind at 1, catch at 1. unfold p_call at 1.
+    destruct (prim_ff KSC false (fun d w => TCall KSC [] (disp_res d) (if disp_effect d then [] else [])) (fun w => w) (fun d _ => disp_ret d tt) s2 F2) as (s3 & F3 & W3 & R3).
+    rewrite R3. cbn [disp_ret ret].
+    unfold bind at 1. unfold p_del_outbox.
+    destruct (prim_ff KDO true (fun d _ => TDelOut (o_id o) (disp_res d))
+                      (fun w => set_outbox w (filter (fun o0 => negb (N.eqb (o_id o0) (o_id o))) (w_outbox w))) (fun d _ => disp_ret d tt) s3 F3) as (s4 & F4 & W4 & R4).
+    rewrite R4. cbn [disp_ret ret].
+    destruct (IH s4 F4) as (s' & R & F' & Ho & Hlg). exists s'. split; [exact R|]. split; [exact F'|].
+    rewrite Ho, Hlg, W4, W3, W2, W1. cbn. unfold do_send. cbn. split.
+    + clear. induction (w_outbox (o_w s)) as [|a t IHt]; cbn; [reflexivity|].
+      destruct (N.eqb (o_id a) (o_id o)) eqn:E; cbn.
+      * rewrite N.eqb_sym in E. rewrite E. cbn. exact IHt.
+      * rewrite N.eqb_sym in E. rewrite E. cbn. now rewrite IHt.
+    + rewrite app_length. cbn. lia.
+Qed.
+
+Lemma filter_prefix_nodup (L : list oentry) (n : nat) :
+  NoDup (map o_id L) ->
+  filter (fun o => negb (existsb (fun x => N.eqb (o_id x) (o_id o)) (firstn n L))) L = skipn n L.
+Proof.
+  revert n. induction L as [|a t IH]; intros n Hnd; [destruct n; reflexivity|].
+  inversion Hnd as [|x xs Hn Hnd']; subst. destruct n as [|n]; cbn [firstn skipn].
+  - cbn. f_equal. clear. induction t as [|b t IHt]; cbn; [reflexivity|]. now rewrite IHt.
+  - cbn [filter existsb]. rewrite N.eqb_refl. cbn. rewrite <- (IH n Hnd').
+    apply filter_ext_in. intros b Hb. cbn.
+    destruct (N.eqb (o_id a) (o_id b)) eqn:E; [|reflexivity].
+    apply N.eqb_eq in E. exfalso. apply Hn. rewrite E. apply in_map, Hb.
+Qed.
+
+(* one fault-free relay cycle: the first min(limit, n) entries are published, in order, and removed *)
+Theorem relay_cycle_drains (limit : nat) (s : ost) :
+  ff s -> NoDup (map o_id (w_outbox (o_w s))) ->
+  exists s', relay_entries (firstn limit (w_outbox (o_w s))) s = (Ok tt, s') /\
+    w_outbox (o_w s') = skipn limit (w_outbox (o_w s)) /\
+    length (w_log (o_w s')) = (length (w_log (o_w s)) + Nat.min limit (length (w_outbox (o_w s))))%nat.
+Proof.
+  intros Hs Hnd. destruct (relay_entries_ff (firstn limit (w_outbox (o_w s))) s Hs) as (s' & R & _ & Ho & Hl).
+  exists s'. split; [exact R|]. split; [rewrite Ho; apply filter_prefix_nodup, Hnd|]. rewrite Hl, firstn_length. reflexivity.
+Qed.
